@@ -3291,6 +3291,73 @@ static void me_unit_fn(void *arg)
     }
 }
 
+/* phase F unit: issues a migration request for itself and then gives up the
+ * processor in one of several ways; the next slice must come from the target */
+typedef struct {
+    ABT_pool dst;
+    ABT_thread peer;
+    int form;
+    int cbs;
+    int rc, rc_giveup;
+    int rank_before, rank_after;
+    ABT_pool last_after;
+    int peer_stop, peer_slices;
+} mf_unit_t;
+static int c_mgiveup[5];
+static const char *mf_form_name[] = { "ABT_self_yield", "ABT_thread_yield_to", "ABT_self_yield_to", "ABT_thread_yield",
+                                      "ABT_self_resume_yield_to" };
+static void mf_cb(ABT_thread th, void *arg)
+{
+    (void)th;
+    __atomic_fetch_add(&((mf_unit_t *)arg)->cbs, 1, __ATOMIC_SEQ_CST);
+}
+static void mf_peer_fn(void *arg)
+{
+    mf_unit_t *u = (mf_unit_t *)arg;
+    while (!__atomic_load_n(&u->peer_stop, __ATOMIC_SEQ_CST)) {
+        __atomic_fetch_add(&u->peer_slices, 1, __ATOMIC_SEQ_CST);
+        ABT_thread_yield();
+    }
+}
+static void mf_unit_fn(void *arg)
+{
+    mf_unit_t *u = (mf_unit_t *)arg;
+    ABT_thread self;
+    ABT_self_get_thread(&self);
+    ABT_self_get_xstream_rank(&u->rank_before);
+    u->rc = ABT_thread_migrate_to_pool(self, u->dst);
+    switch (u->form) {
+        case 0:
+            u->rc_giveup = ABT_self_yield();
+            break;
+        case 1:
+            u->rc_giveup = ABT_thread_yield_to(u->peer);
+            break;
+        case 2: {
+            /* ABT_self_yield_to wants its target popped first; the peer is the
+             * only other unit of this pool */
+            ABT_pool mine;
+            ABT_thread got = ABT_THREAD_NULL;
+            ABT_self_get_last_pool(&mine);
+            ABT_pool_pop_thread(mine, &got);
+            if (got == u->peer) {
+                u->rc_giveup = ABT_self_yield_to(u->peer);
+            } else {
+                if (got != ABT_THREAD_NULL)
+                    ABT_pool_push_thread(mine, got);
+                u->form = 0;
+                u->rc_giveup = ABT_self_yield();
+            }
+            break;
+        }
+        default:
+            u->rc_giveup = ABT_thread_yield();
+            break;
+    }
+    ABT_self_get_xstream_rank(&u->rank_after);
+    ABT_self_get_last_pool(&u->last_after);
+}
+
 static void mig_observer(int id)
 {
     if (id == ABTI_VERIF_P_MIGRATE_BEFORE_CLEAR)
@@ -3579,6 +3646,54 @@ static void run_migrate(vrt_rng *r, int idx)
         VRT_ABT(ABT_xstream_join(qx));
         VRT_ABT(ABT_xstream_free(&qx));
     }
+    /* --- phase F: a unit with a pending (self-issued) request gives up the
+     * processor with each of the yielding forms; its next slice must come from
+     * the requested pool, i.e. run on the stream serving that pool, with one
+     * callback.  The peer of the directed forms lives in the unit's own pool,
+     * which only the unit's stream serves, so it is READY and in the pool. --- */
+    for (int f = 0; f < 8 && vrt_num_violations() == 0; f++) {
+        mf_unit_t u;
+        memset(&u, 0, sizeof(u));
+        u.form = f % 4;
+        int from = 1 + (int)vrt_range(r, (uint64_t)(nes - 2)); /* a stream with a predefined scheduler */
+        int to = 1 + (int)vrt_range(r, (uint64_t)(nes - 1));
+        if (to == from)
+            to = from == nes - 1 ? 1 : from + 1;
+        u.dst = g_mpools[to];
+        int rank_to = -1, rank_from = -1;
+        VRT_ABT(ABT_xstream_get_rank(xs[to], &rank_to));
+        VRT_ABT(ABT_xstream_get_rank(xs[from], &rank_from));
+        ABT_thread t, peer;
+        ABT_thread_attr attr;
+        VRT_ABT(ABT_thread_attr_create(&attr));
+        VRT_ABT(ABT_thread_attr_set_callback(attr, mf_cb, &u));
+        /* the peer is created (and published) first; it cannot be popped by
+         * anybody but the stream that will run the unit */
+        VRT_ABT(ABT_thread_create(g_mpools[from], mf_peer_fn, &u, ABT_THREAD_ATTR_NULL, &peer));
+        u.peer = peer;
+        VRT_ABT(ABT_thread_create(g_mpools[from], mf_unit_fn, &u, attr, &t));
+        VRT_ABT(ABT_thread_attr_free(&attr));
+        VRT_ABT(ABT_thread_join(t));
+        __atomic_store_n(&u.peer_stop, 1, __ATOMIC_SEQ_CST);
+        VRT_ABT(ABT_thread_free(&peer));
+        ABT_pool lp;
+        VRT_ABT(ABT_thread_get_last_pool(t, &lp));
+        if (vrt_num_violations() == 0) {
+            VRT_CHECK(u.rc == ABT_SUCCESS && u.rc_giveup == ABT_SUCCESS, "migrate:valid-request-rejected",
+                      "self-issued request to another stream's pool returned %d, %s returned %d", u.rc, mf_form_name[u.form],
+                      u.rc_giveup);
+            VRT_CHECK(u.rank_before == rank_from, "migrate:unit-ran-on-wrong-stream", "a unit created in the pool of stream %d "
+                      "started on stream %d", rank_from, u.rank_before);
+            VRT_CHECK(u.last_after == u.dst && lp == u.dst && u.rank_after == rank_to, "migrate:not-moved",
+                      "a unit with a pending request to the pool of stream %d gave up the processor with %s: its next slice "
+                      "ran on stream %d (before: %d), last pool %s", rank_to, mf_form_name[u.form], u.rank_after, u.rank_before,
+                      u.last_after == u.dst ? "= target" : "!= target");
+            VRT_CHECK(u.cbs == 1, "migrate:callback-count", "pending request + %s: one performed migration, callback ran %d "
+                      "times", mf_form_name[u.form], u.cbs);
+        }
+        VRT_ABT(ABT_thread_free(&t));
+        vrt_count(c_mgiveup[u.form], 1);
+    }
     VRT_CHECK(g_m.done == 1 && g_m.starts == 1, "migrate:not-exactly-once", "starts=%d done=%d", g_m.starts, g_m.done);
     VRT_CHECK(!g_m.cb_bad, "migrate:callback-arguments", "the migration callback received a wrong thread handle or argument");
     VRT_CHECK(g_m.cb_count >= g_m.changes, "migrate:fewer-callbacks-than-moves", "%d pool changes observed, %d callbacks",
@@ -3781,6 +3896,10 @@ int main(int argc, char **argv)
         c_mcb = vrt_counter("callbacks");
         c_mrej_own_multi = vrt_counter("rejected_own_stream_with_multi_pool_scheduler");
         c_mattr_cb = vrt_counter("callback_from_attributes_of_unit_made_migratable_later");
+        c_mgiveup[0] = vrt_counter("pending_request_then_self_yield");
+        c_mgiveup[1] = vrt_counter("pending_request_then_thread_yield_to");
+        c_mgiveup[2] = vrt_counter("pending_request_then_self_yield_to");
+        c_mgiveup[3] = vrt_counter("pending_request_then_thread_yield");
         c_mrej_same_pool = vrt_counter("rejected_current_pool");
         c_mrej_nonmigratable = vrt_counter("rejected_non_migratable");
         c_mrej_mainsched = vrt_counter("rejected_main_scheduler_ult");
